@@ -151,6 +151,20 @@ func (e *Encoder) writeMap(data interface{}) (int, error) {
 	return count, nil
 }
 
+// setMapEntry stores a decoded entry; a null key or value is the zero value
+// of the map's key or element type (a map ends at 'Z', not at a null key).
+func setMapEntry(m reflect.Value, key, value interface{}) {
+	k := EnsureRawValue(key)
+	if !k.IsValid() {
+		k = reflect.Zero(m.Type().Key())
+	}
+	v := EnsureRawValue(value)
+	if !v.IsValid() {
+		v = reflect.Zero(m.Type().Elem())
+	}
+	m.SetMapIndex(k, v)
+}
+
 //readTypedMap read typed map
 func (d *Decoder) readTypedMap() (interface{}, error) {
 	typ, err := d.readType()
@@ -183,17 +197,12 @@ func (d *Decoder) readTypedMap() (interface{}, error) {
 			return nil, err
 		}
 
-		//nil map
-		if key == nil {
-			break
-		}
-
 		value, err := d.ReadData()
 		if err != nil {
 			return nil, err
 		}
 		if mType.Kind() == reflect.Map {
-			mValue.SetMapIndex(EnsureRawValue(key), EnsureRawValue(value))
+			setMapEntry(mValue, key, value)
 		} else {
 			fieldName, ok := key.(string)
 			if !ok {
@@ -224,11 +233,6 @@ func (d *Decoder) readUntypedMap() (interface{}, error) {
 				break
 			}
 			return nil, err
-		}
-
-		// nil map
-		if key == nil {
-			break
 		}
 
 		value, err := EnsureInterface(d.ReadData())
@@ -279,15 +283,11 @@ func (d *Decoder) readMap(dest reflect.Value) error {
 			}
 		}
 
-		if key == nil {
-			break
-		}
-
 		vl, err := d.ReadData()
 		if err != nil {
 			return err
 		}
-		mPtrValue.Elem().SetMapIndex(EnsureRawValue(key), EnsureRawValue(vl))
+		setMapEntry(mPtrValue.Elem(), key, vl)
 	}
 	SetValue(dest, mPtrValue)
 	return nil
